@@ -13,6 +13,7 @@ RULE = ("bisect: ALL strictly increasing arrays of length 1..7 over a 9-point gr
         "inside and outside the interval; insitu: an icontract post-condition on the production search_bisection reached through DenseOutput look-ups; "
         "non-trivial = >=1 comparison; distinct by (kind, array / seed)")
 ASSUMPTIONS = ["Hermite reproduction threshold: 8*eps*cond*(1+6(1+s)^2)*(1+|t0|/|L|) with cond = sum of |basis value * datum| (evaluated per query), extrapolation up to 1.5 interval lengths"]
+RULE += " Strata added in the fourth seeding round: Every array asked in descending and shuffled orders; integer / reduced-precision arrays asked with float64 queries."
 EXHAUSTIVE = {"quick": True, "thorough": True}
 FLOORS = {"quick": {"bisect_scalar_queries": 9000, "bisect_vector_queries": 9000, "hermite_queries": 3000, "insitu_contract_evaluations": 500, "bisect_arrays_on_scaled_axes": 120, "bisect_scalar_queries_in_other_orders": 20000, "bisect_mixed_dtype_queries": 20000},
           "thorough": {"bisect_scalar_queries": 27000, "bisect_vector_queries": 27000, "hermite_queries": 30000, "insitu_contract_evaluations": 5000, "bisect_arrays_on_scaled_axes": 300, "bisect_scalar_queries_in_other_orders": 60000, "bisect_mixed_dtype_queries": 100000}}
